@@ -31,6 +31,33 @@ def fresh(x):
     return x
 
 
+def aliased(x):
+    """(a structurally equal value in which equal non-empty dictionaries are one and the same object -
+    as when a user puts one settings dictionary under two keys -, number of places that share)."""
+    pool = {}
+    shared = [0]
+
+    def build(v):
+        if type(v) is dict:
+            if v:
+                key = repr(tfreeze(v))
+                if key in pool:
+                    shared[0] += 1
+                    return pool[key]
+            out = {k: build(w) for k, w in v.items()}
+            if v:
+                pool[key] = out
+            return out
+        if type(v) is list:
+            return [build(w) for w in v]
+        return v
+    if type(x) is dict:
+        res = {k: build(w) for k, w in x.items()}
+    else:
+        res = build(x)
+    return res, shared[0]
+
+
 def tfreeze(x, _stack=()):
     """Canonical hashable form that keeps types apart (0 is not False) and ignores key order.
     A container that contains itself (possible only when the code under test aliased instead of
